@@ -1,5 +1,6 @@
 import ProductMD.Proofs.TextOKDecide
 import ProductMD.Proofs.TreeInfoAligned
+import ProductMD.Proofs.TreeInfoSecondDump
 import ProductMD.Proofs.TreeInfoDecEq
 import ProductMD.Model.TreeInfoText
 import ProductMD.Model.DiscInfo
@@ -19,7 +20,8 @@ platforms, images and checksums:
 * `C04_tree_text`      — the same through the text: `loads (dumps t) = ok (norm t)`; the reader side is the proved
   `parse ∘ render` theorem of `Proofs/IniRoundTrip.lean`, extended here to the comment-named `; WARNING.n` options of
   `[general]` which the writer emits and the reader skips.
-* `C04_tree_bytes`     — for a tree in normal form the second `dumps` is byte-identical to the first.
+* `C04_tree_bytes`     — `dumps (loads (dumps t)) = dumps t` for every tree the writer accepts with top-level variants filed under
+  their UID: the re-read object can be written again and shows the same bytes (`C04_tree_second_dump` on the document).
 * `C04_disc_readback`  — discinfo, on the text.
 
 Every hypothesis is a decidable property of the tree (or of the written document) and is justified against the
@@ -129,8 +131,8 @@ theorem C04_tree_text (sp : Char → Bool) (hsp : IniParse.SpOK sp) (hh : sp '#'
       rw [setsKV_nil_nodup _ (himg.1 p hp)] at hkv
       exact himn p hp kv hkv
 
-/-- **C04, trees in normal form: the second dump is byte-identical.** -/
-theorem C04_tree_bytes (sp : Char → Bool) (hsp : IniParse.SpOK sp) (hh : sp '#' = false) (hs : sp ';' = false)
+/-- C04, trees in normal form: the cycle is the identity on the text as well (no validity hypothesis left). -/
+theorem C04_tree_bytes_normal (sp : Char → Bool) (hsp : IniParse.SpOK sp) (hh : sp '#' = false) (hs : sp ';' = false)
     (fo : FloatOracle) (t : TreeInfo) (mv : Option Str) (text : Str) (n : Int)
     (h : dumps t mv = .ok text) (hnorm : norm t = t)
     (htext : ∀ d, serialize t mv = .ok d → TextOK sp d)
@@ -150,8 +152,46 @@ theorem C04_tree_bytes (sp : Char → Bool) (hsp : IniParse.SpOK sp) (hh : sp '#
   rw [hnorm] at this
   exact ⟨this, by rw [this]; exact h⟩
 
-/-- `C04_tree_bytes` for CPython's `str.isspace`, with the decidable representability criterion -/
-theorem C04_tree_bytes_py (fo : FloatOracle) (t : TreeInfo) (mv : Option Str) (text : Str) (n : Int)
+/-- **C04, trees: writing the re-read object reproduces the file byte for byte.**  For any tree the writer accepts (not only
+normal forms): the re-read object `norm t` can be written again (`serialize_conv`: every validator passes, every section name is
+fresh) and its document renders to the same bytes (`render_norm`: same sections with the same options up to creation order,
+which `SortedConfigParser.write` does not show).  Beyond `C04_tree_text`: every top-level variant is filed under its UID (`hk`;
+outside: F8, witness below) and the requested main variant, if any, is the key of a top-level variant (`hmv`). -/
+theorem C04_tree_bytes (sp : Char → Bool) (hsp : IniParse.SpOK sp) (hh : sp '#' = false) (hs : sp ';' = false)
+    (fo : FloatOracle) (t : TreeInfo) (mv : Option Str) (text : Str) (n : Int)
+    (h : dumps t mv = .ok text)
+    (htext : ∀ d, serialize t mv = .ok d → TextOK sp d)
+    (hck : ∀ c ∈ t.checksums, nc c.1 = true) (himn : ∀ p ∈ t.images, ∀ kv ∈ p.2, nc kv.1 = true)
+    (hts : t.tree.ts = .int n) (hfl : fo.intOfFloatStr (Str.intStr n) = .ok n)
+    (hplat : PlatformsOK t.tree) (huok : UidsOK t.variants) (hnd : UidsNodup t.variants)
+    (htop : TopNotAddon t.variants) (hcs : ChecksumsOK t.checksums) (himg : ImagesOK t.tree.arch t.images)
+    (hv : ReadValid (norm t)) (hk : TopKeyedByUid t.variants) (hmv : MainVariantTop t mv) :
+    loads sp fo text = .ok (norm t) ∧ (loads sp fo text).bind (dumps · mv) = .ok text := by
+  have hload := C04_tree_text sp hsp hh hs fo t mv text n h htext hck himn hts hfl hplat huok hnd htop hcs himg hv
+  refine ⟨hload, ?_⟩
+  rw [hload]
+  unfold dumps at h
+  cases hser : serialize t mv with
+  | error e => rw [hser] at h; cases h
+  | ok d =>
+    rw [hser] at h
+    simp only [Except.map] at h
+    injection h with h
+    obtain ⟨d', hd', hr⟩ := second_dump hser hv hk hnd hmv hcs.1 himg.1
+    show dumps (norm t) mv = .ok text
+    unfold dumps
+    rw [hd']
+    simp only [Except.map, hr, h]
+
+/-- the same on the document, without the text layer: the second document renders like the first -/
+theorem C04_tree_second_dump (t : TreeInfo) (mv : Option Str) (d : Ini) (h : serialize t mv = .ok d) (hv : ReadValid (norm t))
+    (hk : TopKeyedByUid t.variants) (hnd : UidsNodup t.variants) (hmv : MainVariantTop t mv)
+    (hcs : ChecksumsOK t.checksums) (himg : ImagesOK t.tree.arch t.images) :
+    ∃ d', serialize (norm t) mv = .ok d' ∧ IniText.render d' = IniText.render d :=
+  second_dump h hv hk hnd hmv hcs.1 himg.1
+
+/-- `C04_tree_bytes_normal` for CPython's `str.isspace`, with the decidable representability criterion -/
+theorem C04_tree_bytes_normal_py (fo : FloatOracle) (t : TreeInfo) (mv : Option Str) (text : Str) (n : Int)
     (h : dumps t mv = .ok text) (hnorm : norm t = t)
     (hrep : ∀ d, serialize t mv = .ok d → IniText.Representable d = true)
     (hck : ∀ c ∈ t.checksums, nc c.1 = true) (himn : ∀ p ∈ t.images, ∀ kv ∈ p.2, nc kv.1 = true)
@@ -159,7 +199,7 @@ theorem C04_tree_bytes_py (fo : FloatOracle) (t : TreeInfo) (mv : Option Str) (t
     (hplat : PlatformsOK t.tree) (huok : UidsOK t.variants) (hnd : UidsNodup t.variants) 
     (htop : TopNotAddon t.variants) (hcs : ChecksumsOK t.checksums) (himg : ImagesOK t.tree.arch t.images) :
     loads Str.isPySpace fo text = .ok t ∧ (loads Str.isPySpace fo text).bind (dumps · mv) = .ok text :=
-  C04_tree_bytes Str.isPySpace spOK_py py_hash py_semi fo t mv text n h hnorm
+  C04_tree_bytes_normal Str.isPySpace spOK_py py_hash py_semi fo t mv text n h hnorm
     (fun d hd => textOK_of_representable d (hrep d hd)) hck himn hts hfl hplat huok hnd htop hcs himg
 
 /-! ### non-vacuity: a layered tree with a dashed top-level UID, three levels, children of all three types -/
@@ -197,6 +237,18 @@ example : C04_exTree.tree.ts = .int 1417653911 ∧ C04_fo.intOfFloatStr (Str.int
 image name is comment-like -/
 example : (serialize C04_exTree none).toOption.map IniText.Representable = some true ∧
     (∀ c ∈ C04_exTree.checksums, nc c.1 = true) ∧ (∀ p ∈ C04_exTree.images, ∀ kv ∈ p.2, nc kv.1 = true) := by decide +kernel
+instance (vs : List Variant) : Decidable (TopKeyedByUid vs) := by unfold TopKeyedByUid; infer_instance
+/-- the extra hypotheses of `C04_tree_bytes` hold of the un-normalised example: top-level variants filed under their UID, no
+main variant requested (or the key of a top-level variant), and the normal form passes the reader's validators -/
+example : TopKeyedByUid C04_exTree0.variants ∧ (∃ v ∈ C04_exTree0.variants, v.key = "Server".toList) := by decide +kernel
+example : MainVariantTop C04_exTree0 none := fun _ h => nomatch h
+example : ReadValid (norm C04_exTree0) := by
+  have hn : norm C04_exTree = C04_exTree := by decide +kernel
+  cases hs : serialize C04_exTree none with
+  | error e =>
+    have : (serialize C04_exTree none).toBool = true := by decide +kernel
+    rw [hs] at this; cases this
+  | ok d => exact readValid_of_normal (serialize_valid hs) hn
 /-- …and the conclusion, evaluated: reading the written document gives the tree back; for the un-normalised tree its normal form -/
 example : (serialize C04_exTree none).toOption.map (deserialize C04_fo) = some (.ok C04_exTree) := by decide +kernel
 example : (serialize C04_exTree0 none).toOption.map (deserialize C04_fo) = some (.ok (norm C04_exTree0)) := by decide +kernel
